@@ -180,6 +180,47 @@ func derive(how string, right, stale, other, lit string, pos int, alphabet strin
 		return other
 	case "lit":
 		return lit
+	// structured near-misses: strings a lenient comparison (decoding, trimming, numeric parsing) would take for the right one
+	case "upper":
+		return strings.ToUpper(right)
+	case "mixed":
+		b := []byte(right)
+		for i := range b {
+			if (i+pos)%2 == 0 && b[i] >= 'a' && b[i] <= 'z' {
+				b[i] -= 'a' - 'A'
+			}
+		}
+		return string(b)
+	case "lspace":
+		return " " + right
+	case "tspace":
+		return right + " "
+	case "newline":
+		return right + "\n"
+	case "0x":
+		return "0x" + right
+	case "doubled":
+		return right + right
+	case "dropzero":
+		if strings.HasPrefix(right, "0") {
+			return right[1:]
+		}
+		return strings.TrimLeft(right, "123456789abcdef")
+	case "addzero":
+		return "0" + right
+	case "plus":
+		return "+" + right
+	case "fullwidth":
+		// the same digits as full-width forms (U+FF10..): equal after Unicode digit folding, not as strings
+		var sb strings.Builder
+		for _, ch := range right {
+			if ch >= '0' && ch <= '9' {
+				sb.WriteRune(0xFF10 + (ch - '0'))
+			} else {
+				sb.WriteRune(ch)
+			}
+		}
+		return sb.String()
 	}
 	return right
 }
@@ -345,7 +386,12 @@ func runScriptTimed(s *script) (vh.Case, bool) {
 func coqStr(s string) string {
 	for i := 0; i < len(s); i++ {
 		if s[i] < 32 || s[i] > 126 {
-			panic(fmt.Sprintf("harness generated a non-printable string %q", s))
+			// bytes outside printable ASCII: spelled out (sb of C19_Model.v)
+			xs := make([]string, len(s))
+			for j := 0; j < len(s); j++ {
+				xs[j] = fmt.Sprintf("%d", s[j])
+			}
+			return "(sb [" + strings.Join(xs, ";") + "]%N)"
 		}
 	}
 	return "\"" + strings.ReplaceAll(s, "\"", "\"\"") + "\"%string"
